@@ -13,6 +13,8 @@ ADJOINT_VC = ['rigid.Ob.__init__', 'rigid.Ob.l', 'rigid.Ob.r', 'rigid.Ob.z', 'ri
               'rigid.Ty.l', 'rigid.Ty.r', 'rigid.Ty.z', 'rigid.Ty.__lshift__', 'rigid.Ty.__rshift__',
               'lemma:adjoint.inverse.l', 'lemma:adjoint.inverse.r', 'lemma:adjoint.antihom.l', 'lemma:adjoint.antihom.r']
 
+DAGGER_VC = ['cat.Box.__init__', 'cat.Box.dagger', 'monoidal.Swap.dagger', 'rigid.Cup.dagger', 'rigid.Cap.dagger']
+
 CORE_VC = ['cat.Arrow.__init__', 'cat.Id.__init__', 'cat.Arrow.then', 'cat.Arrow.__getitem__',
            'monoidal.Layer.__init__', 'monoidal.Diagram.__init__', 'monoidal.Id.__init__']
 
@@ -24,21 +26,26 @@ PROPS = {
                       'monoidal.Diagram.__getitem__', 'rewriting.interchange', 'rewriting.interchange[far]', 'rewriting.normalize',
                       'rigid.Cup.__init__', 'rigid.Cap.__init__', 'rigid.cups', 'rigid.caps', 'monoidal.Box.__init__',
                       'rigid.Box.__init__', 'monoidal.Diagram.__init__[accepts]', 'monoidal.Diagram.swap', 'rigid.Diagram.swap',
-                      'monoidal.Swap.__init__', 'rigid.Swap.__init__', 'lemma:canary:then.len'] + TYPE_VC + ADJOINT_VC,
+                      'monoidal.Swap.__init__', 'rigid.Swap.__init__', 'lemma:canary:then.len', 'rigid.Diagram.transpose',
+                      'monoidal.Functor.__call__[Swap]'] + TYPE_VC + ADJOINT_VC + DAGGER_VC,
         sym=[], rtc='C01',
         level_text='Proof of the representation invariant wf (boxes/offsets scan from dom to cod, each box finds its '
                    'domain at its offset, the layer view agrees) for the constructor scan (establishes wf or raises, '
                    'including the offset range that python slice clamping would hide), the fast-path constructor, '
                    'Id, then, tensor, slicing/dagger/indexing, adjacent and distant interchange, the diagrams yielded by '
                    'normalize, the cat.Arrow constructor scan, the acceptance direction of the Diagram constructor, Box / Swap / '
-                   'Cup / Cap constructors, nested cups / caps and swap(l, r): the real bodies are re-read '
+                   'Cup / Cap constructors, nested cups / caps and swap(l, r), and for the classes the model is built from: '
+                   'monoidal.Ty / rigid.Ty / rigid.Ob methods (pointwise against the sequence operations), upgrade of arrows, '
+                   'diagrams and types, Box.__init__ and the four dagger bodies: the real bodies are re-read '
                    'from /repo on every run, verified against functional contracts, and wf(result) is discharged for '
                    'all well-formed inputs of any length and width. Producers not yet under a discharged contract '
-                   '(foliation, flatten, permutations, transposes, snake removal, rigid functor images of boxes) '
+                   '(foliation, flatten, permutations, snake removal, rigid functor images of boxes; transposes and the functor '
+                   'image of a swap are under contract) '
                    'are covered by the bounded stand-in only and not counted as proved.',
-        level_note='Trusted: pyvc + solvers; Upgrade contract (class-preserving upgrade is the identity on the modelled '
-                   'fields; subclasses verified by the bounded driver); Box.dagger contract (swaps dom/cod, involutive) '
-                   'assumed at call sites; L-ind, L-ext. Bounded part: all diagrams <= 3 (thorough 4) boxes over 8 boxes.',
+        level_note='Trusted: pyvc + solvers; L-ind, L-ext, L-box (a box is determined by the fields its __eq__ compares). The '
+                   'type model (monoidal.Ty / rigid.Ty / rigid.Ob methods as sequence operations), upgrade and the four '
+                   'dagger bodies are verified contracts, not assumptions (contracts/types.py, contracts/daggers.py). '
+                   'Bounded part: all diagrams <= 3 (thorough 4) boxes over 8 boxes.',
         technique='VC generation from the real AST + z3/cvc5; loop invariants (closed-form and relational); bounded '
                   'run-time contracts for the remaining producers'),
     'C02': dict(
@@ -49,7 +56,7 @@ PROPS = {
             'lemma:then.assoc', 'lemma:then.unit', 'lemma:tensor.assoc', 'lemma:tensor.unit', 'lemma:tensor.whisker',
             'lemma:tensor.id', 'lemma:slice.recompose', 'lemma:dagger.involutive', 'lemma:dagger.id',
             'lemma:dagger.contravariant', 'lemma:dagger.tensor', 'lemma:canary:tensor.commutes',
-            'lemma:canary:then.len'],
+            'lemma:canary:then.len'] + DAGGER_VC + ['monoidal.Ty.tensor', 'monoidal.Ty.__matmul__'],
         sym=[], rtc='C02',
         level_text='Proof: associativity and unit laws of then and tensor, tensor = whiskered composite, dagger '
                    'involutive / identity-on-objects / contravariant, slice recomposition at every integer k, as '
@@ -212,7 +219,8 @@ PROPS = {
         level='proof',
         vc=['monoidal.Functor.__call__', 'monoidal.Diagram.then', 'monoidal.Diagram.tensor', 'monoidal.Id.__init__',
             'rigid.Functor.__call__[Cup]', 'rigid.Functor.__call__[Cap]', 'rigid.cups', 'rigid.caps', 'rigid.Cup.__init__',
-            'rigid.Cap.__init__', 'lemma:canary:rigid.functor', 'lemma:canary:adjoint.homomorphic'] + ADJOINT_VC,
+            'rigid.Cap.__init__', 'lemma:canary:rigid.functor', 'lemma:canary:adjoint.homomorphic',
+            'monoidal.Functor.__call__[Swap]', 'monoidal.Diagram.swap', 'monoidal.Swap.__init__'] + ADJOINT_VC,
         sym=[], rtc='C04',
         level_text='Proof (type-level clauses, all functors, all diagrams of any length): the real whiskering loop of '
                    'monoidal.Functor.__call__ is verified with a relational loop invariant against the contracts of then / '
@@ -225,13 +233,15 @@ PROPS = {
                    'with a loop invariant (after k steps the result is a well-formed diagram left @ right -> left[:n-k] @ '
                    'right[k:]; each Cup(left[n-k-1], right[k]) is an adjoint pair because adjoints reverse the order; it raises '
                    'AxiomError exactly when the two types are not adjoint), and the constructors of Cup / Cap establish their '
-                   'class invariant and refuse exactly the non-adjoint or multi-object pairs. '
-                   'Functoriality as == between images (then, tensor, id, dagger, slices, sums, bubbles), the cat functor, the '
-                   'object map of rigid functors (adjoints of any winding number) and swaps: bounded stand-in.',
+                   'class invariant and refuse exactly the non-adjoint or multi-object pairs. Swap branch: F(Swap(x, y)) is '
+                   'the well-formed swap diagram F(x) @ F(y) -> F(y) @ F(x) of the images (contract of Diagram.swap, all image '
+                   'lengths). The pregroup facts about adjoints used throughout are lemmas derived from the verified bodies of '
+                   'rigid.Ty.l / .r and rigid.Ob.l / .r. '
+                   'Functoriality as == between images (then, tensor, id, dagger, slices, sums, bubbles), the cat functor and the '
+                   'object map of rigid functors (adjoints of any winding number): bounded stand-in.',
         level_note='Trusted: pyvc + solvers; precondition: images given by the user are well-typed and deterministic. Assumed at '
                    'call sites: the object-map branch of __call__ is a homomorphism on types and, for rigid functors, commutes '
-                   'with .l / .r (bounded by the driver: adjoints of winding number -2..2); monoidal.Box.__init__ / '
-                   'rigid.Box.__init__ store name, dom, cod as given.',
+                   'with .l / .r (bounded by the driver: adjoints of winding number -2..2).',
         technique='VC generation from the real AST with a relational loop invariant (z3/cvc5); bounded run-time contracts '
                   'for the equational clauses'),
     'C06': dict(
@@ -433,4 +443,4 @@ FIX_COMMITS = ['da35a0f fix: Y gate', 'e208434 fix: Ry', '1d0097a fix: Controlle
 def claimed():
     return sorted(PROPS)
 
-CONTRACT_MODULES = ['core', 'rewriting', 'lemmas', 'eqhash', 'functors', 'grammar', 'cartesian', 'structural', 'types']
+CONTRACT_MODULES = ['core', 'rewriting', 'lemmas', 'eqhash', 'functors', 'grammar', 'cartesian', 'structural', 'types', 'daggers']
